@@ -1,57 +1,3 @@
-import OpyVerif.Proofs.ClipProg
-import OpyVerif.Proofs.C06
-import OpyVerif.Generated.ClipLoops
-/-!
-C01 / C06 / C13 stated about the *translated* `check_limits` methods: `Gen.agentClip`,
-`Gen.searchClip`, `Gen.hyperClip` are what `harness/translate_loops.py` read from the current
-working tree.  Each theorem composes the regenerated equality (`Generated/ClipLoops.lean`), the
-meaning of the expected loop (`Proofs/ClipProg.lean`) and the projection theorems of `Proofs/C06.lean`.
--/
-namespace Opy
-
-theorem code_agentClip (lbs ubs : List Int) (p : Pos) : Gen.agentClip.runPos lbs ubs p = clipPos lbs ubs p := by
-  rw [Gen.agentClip_eq]; exact agentClip_run lbs ubs p
-
-theorem code_searchClip (lbs ubs : List Int) (pop : List Pos) : Gen.searchClip.runAll lbs ubs pop = clipAll lbs ubs pop := by
-  rw [Gen.searchClip_eq]; exact searchClip_run lbs ubs pop
-
-theorem code_hyperClip (lbs ubs : List Int) (pop : List Pos) :
-    Gen.hyperClip.runAll lbs ubs pop = clipAllHyper (min lbs.length ubs.length) pop := by
-  rw [Gen.hyperClip_eq]; exact hyperClip_run lbs ubs pop
-
-/-- `Agent.check_limits` (as translated) leaves the position inside the agent's box, whatever it was -/
-theorem code_agentClip_inBox (lbs ubs : List Int) (p : Pos) (hb : BoundsOk lbs ubs) (hl : p.length = lbs.length) :
-    InBox lbs ubs (Gen.agentClip.runPos lbs ubs p) := by
-  rw [code_agentClip]; exact clipPos_inBox lbs ubs p hb hl.symm
-
-/-- … changes nothing that is already inside (bit-identical through the key embedding) … -/
-theorem code_agentClip_fixed (lbs ubs : List Int) (p : Pos) (h : InBox lbs ubs p) :
-    Gen.agentClip.runPos lbs ubs p = p := by
-  rw [code_agentClip]; exact clipPos_fixed lbs ubs p h
-
-/-- … and is idempotent -/
-theorem code_agentClip_idem (lbs ubs : List Int) (p : Pos) (hb : BoundsOk lbs ubs) (hl : p.length = lbs.length) :
-    Gen.agentClip.runPos lbs ubs (Gen.agentClip.runPos lbs ubs p) = Gen.agentClip.runPos lbs ubs p := by
-  rw [code_agentClip, code_agentClip]; exact clipPos_idem lbs ubs p hb hl.symm
-
-/-- `SearchSpace.check_limits` (as translated) puts every agent inside the declared box -/
-theorem code_searchClip_inBox (lbs ubs : List Int) (pop : List Pos) (hb : BoundsOk lbs ubs)
-    (hl : ∀ p ∈ pop, p.length = lbs.length) :
-    ∀ q ∈ Gen.searchClip.runAll lbs ubs pop, InBox lbs ubs q := by
-  rw [code_searchClip]; exact clipAll_inBox lbs ubs pop hb (fun p hp => (hl p hp).symm)
-
-/-- `HyperSpace.check_limits` (as translated) puts every agent of the declared shape inside the unit box,
-    whatever the declared bounds are -/
-theorem code_hyperClip_inUnitBox (lbs ubs : List Int) (pop : List Pos) (hl : lbs.length = ubs.length)
-    (hs : ∀ p ∈ pop, p.length = lbs.length) :
-    ∀ q ∈ Gen.hyperClip.runAll lbs ubs pop,
-      InBox (List.replicate lbs.length keyZero) (List.replicate lbs.length keyOne) q := by
-  rw [code_hyperClip]
-  intro q hq
-  simp only [clipAllHyper, List.mem_map] at hq
-  obtain ⟨p, hp, rfl⟩ := hq
-  have h1 : min lbs.length ubs.length = p.length := by rw [hs p hp]; omega
-  rw [h1, ← hs p hp]
-  exact clipHyper_inUnitBox p
-
-end Opy
+import OpyVerif.Proofs.ClipCodeAgent
+import OpyVerif.Proofs.ClipCodeSearch
+import OpyVerif.Proofs.ClipCodeHyper
